@@ -322,6 +322,74 @@ pub fn run(ctx: &mut Ctx) -> (&'static str, String, bool) {
         ctx.merge(p);
     }
 
+    // ---- the same text in two fields of different geometry, one encode right after the other on one thread: the second
+    //      frame must be what a thread that never saw the first one produces (nothing about a text may be remembered
+    //      across fields, widths or modes) ----------------------------------------------------------------------------
+    if ctx.stage.as_deref() != Some("miri") {
+        let mut p = Part::new();
+        let mut r = base_rng.fork(1100);
+        let texts = ["Привет, мир", "ěščřžýáíé", "日本語テキスト", "éàü€ß", "ab^1cd", "한국어 텍스트"];
+        let mut prepared: Vec<(String, insim::Packet)> = vec![];
+        for tf in &fields {
+            if matches!(tf.spec, Kind::Text { raw: true, .. }) {
+                continue;
+            }
+            let lay = c.kinds().iter().find(|l| l.name == tf.kind).unwrap();
+            for text in texts {
+                let o = GenOpts { text: TextMode::Ascii, max_list: Some(1), boundary: 0, hostile: false };
+                let mut fm = c.gen().packet(&mut r, lay, &o);
+                set_text(&mut fm, tf, text, c, &mut r);
+                if lay.name == "MSO" {
+                    corpus::set(&mut fm, "TextStart", Val::U(0));
+                }
+                if let Ok(Ok(pk)) = guarded(|| bind::from_fields(&c.spec, lay, &fm)) {
+                    prepared.push((format!("{}.{} <- {:?}", tf.kind, tf.path.join("."), text), pk));
+                }
+            }
+        }
+        let npairs = ctx.tier.pick(150usize, 1500usize);
+        for _ in 0..npairs {
+            if prepared.len() < 2 {
+                break;
+            }
+            let a = r.usize_below(prepared.len());
+            let b = r.usize_below(prepared.len());
+            let compressed_a = r.chance(1, 2);
+            let compressed_b = r.chance(1, 2);
+            let (la, pa) = prepared[a].clone();
+            let (lb, pb) = prepared[b].clone();
+            // a thread that encodes B only, and a thread that encodes A and then B
+            let pb1 = pb.clone();
+            let alone = std::thread::spawn(move || real_encode(&pb1, compressed_b)).join();
+            let after = std::thread::spawn(move || {
+                let _ = real_encode(&pa, compressed_a);
+                real_encode(&pb, compressed_b)
+            })
+            .join();
+            p.evaluations += 1;
+            p.distinct(&(a, b, compressed_a, compressed_b));
+            let same = match (&alone, &after) {
+                (Ok(Enc::Ok(x)), Ok(Enc::Ok(y))) => x == y,
+                (Ok(Enc::Err(_)), Ok(Enc::Err(_))) | (Ok(Enc::Panic(_)), Ok(Enc::Panic(_))) => true,
+                _ => false,
+            };
+            if !same {
+                let len = |x: &std::thread::Result<Enc>| match x {
+                    Ok(Enc::Ok(f)) => format!("{} bytes", f.len()),
+                    Ok(Enc::Err(e)) => format!("error {e}"),
+                    Ok(Enc::Panic(e)) => format!("panic {e}"),
+                    Err(_) => "thread panicked".to_string(),
+                };
+                p.violation(
+                    "C11/field-depends-on-previous-encode",
+                    format!("encoding [{lb}] gives {} on its own but {} right after encoding [{la}] on the same thread", len(&alone), len(&after)),
+                    json!({"first": la, "second": lb, "mode_first": mode_name(compressed_a), "mode_second": mode_name(compressed_b)}),
+                );
+            }
+        }
+        ctx.merge(p);
+    }
+
     // SMX track name (32 bytes)
     {
         use insim_core::binrw::{BinRead, BinWrite};
